@@ -140,7 +140,7 @@ def run(ctx):
                 # effectful = a call into the crate (it may search, fetch, mutate) or something written to stdout; pure std
                 # calls (formatting, environment lookups, a trace on stderr) do not change what a re-ask reports
                 eff = [e for e in rc if e["callee"] not in S.flag_readers and not e["callee"].endswith("get_goal") and
-                       (e["callee"] in crate_fns or e["callee"] in STDOUT_FNS)]
+                       S.effectful(e)]
                 if eff:
                     c_ok, c_why = False, "the exhausted path calls %s" % eff[0]["callee"]
     ctx.ob("R2", "child-dropped", a_ok and n_a > 0, ctx.where(E), a_why or "child = None is the first effect after a failed stored child (%d paths)" % n_a)
